@@ -20,7 +20,8 @@ pub enum Item {
 
 #[derive(Clone, Debug)]
 pub struct Scenario {
-    pub publish: bool,
+    /// one entry per activity on the same connection: true = publish, false = play
+    pub modes: Vec<bool>,
     pub items: Vec<Item>,
     pub app: String,
     pub key: String,
@@ -71,6 +72,7 @@ pub struct Sys {
     c_events: VecDeque<CEv>,
     c_phase: u8,
     c_next: usize,
+    round: usize,
     s_play_stream: Option<u32>,
     s_sent: usize,
     received: Vec<Got>,
@@ -103,7 +105,7 @@ impl Sys {
         let (c, co) = ClientH::new(ccfg, 1000).map_err(|e| format!("ClientSession::new: {}", e))?;
         let mut sys = Sys {
             sc: Arc::new(sc), c, s, to_server: VecDeque::new(), to_client: VecDeque::new(), s_events: VecDeque::new(), c_events: VecDeque::new(),
-            c_phase: 0, c_next: 0, s_play_stream: None, s_sent: 0, received: Vec::new(), tags_ok: true, finished: 0, connected: false, accepted: false,
+            c_phase: 0, c_next: 0, round: 0, s_play_stream: None, s_sent: 0, received: Vec::new(), tags_ok: true, finished: 0, connected: false, accepted: false,
             errors: Vec::new(), trace: Vec::new(), steps: 0,
         };
         for (b, _) in so.packets {
@@ -129,14 +131,19 @@ impl Sys {
         let can_act = match self.c_phase {
             0 => true,
             3 => {
-                if self.sc.publish { true } else { self.received.len() >= self.sc.items.len() }
+                if self.publishing() { true } else { self.received.len() >= self.sc.items.len() * (self.round + 1) }
             }
+            4 => self.round + 1 < self.sc.modes.len(),
             _ => false,
         };
         if !self.c_events.is_empty() || can_act {
             v.push(Actor::ClientApp);
         }
         v
+    }
+
+    fn publishing(&self) -> bool {
+        self.sc.modes[self.round.min(self.sc.modes.len() - 1)]
     }
 
     fn server_obs(&mut self, o: Obs<ServerSessionEvent>, what: &str) {
@@ -224,6 +231,7 @@ impl Sys {
                     let o = self.s.step(&SAct::Accept { id: request_id });
                     self.server_obs(o, "accept_request(play)");
                     self.s_play_stream = Some(stream_id);
+                    self.s_sent = 0;
                 }
                 ServerSessionEvent::AudioDataReceived { app_name, stream_key, data, timestamp } => {
                     if app_name != self.sc.app || stream_key != self.sc.key {
@@ -272,7 +280,7 @@ impl Sys {
             match e {
                 CEv::ConnAccepted => {
                     self.connected = true;
-                    let act = if self.sc.publish { CAct::RequestPublishing { key: self.sc.key.clone(), kind: 0 } } else { CAct::RequestPlayback { key: self.sc.key.clone() } };
+                    let act = if self.publishing() { CAct::RequestPublishing { key: self.sc.key.clone(), kind: 0 } } else { CAct::RequestPlayback { key: self.sc.key.clone() } };
                     let o = self.c.step(&act);
                     self.client_obs(o, "request_publishing/playback");
                     self.c_phase = 2;
@@ -297,7 +305,7 @@ impl Sys {
                 self.c_phase = 1;
             }
             3 => {
-                if self.sc.publish && self.c_next < self.sc.items.len() {
+                if self.publishing() && self.c_next < self.sc.items.len() {
                     let it = self.sc.items[self.c_next].clone();
                     self.trace.push(format!("client app publishes {:?}", it));
                     let act = match it {
@@ -310,11 +318,22 @@ impl Sys {
                     self.c_next += 1;
                 } else {
                     self.trace.push("client app stops".into());
-                    let act = if self.sc.publish { CAct::StopPublishing } else { CAct::StopPlayback };
+                    let act = if self.publishing() { CAct::StopPublishing } else { CAct::StopPlayback };
                     let o = self.c.step(&act);
                     self.client_obs(o, "stop");
                     self.c_phase = 4;
                 }
+            }
+            4 => {
+                // next activity on the same connection
+                self.round += 1;
+                self.c_next = 0;
+                self.accepted = false;
+                self.trace.push(format!("client app starts activity #{}", self.round + 1));
+                let act = if self.publishing() { CAct::RequestPublishing { key: self.sc.key.clone(), kind: 0 } } else { CAct::RequestPlayback { key: self.sc.key.clone() } };
+                let o = self.c.step(&act);
+                self.client_obs(o, "request_publishing/playback");
+                self.c_phase = 2;
             }
             _ => {}
         }
@@ -326,14 +345,18 @@ impl Sys {
             let cls = if e.contains("panicked") { "panic" } else if e.contains("returned Err") { "session-error" } else { "tags" };
             return Err((format!("C02/{}", cls), e.clone()));
         }
-        if !self.connected || !self.accepted || self.c_phase != 4 {
+        if !self.connected || !self.accepted || self.c_phase != 4 || self.round + 1 != self.sc.modes.len() {
             return Err(("C02/did-not-complete".into(), format!("the scenario stalled: connected={} accepted={} client phase {} (0 start, 1 wait connect, 2 wait accept, 3 active, 4 stopped)", self.connected, self.accepted, self.c_phase)));
         }
-        let want: Vec<Got> = self.sc.items.iter().map(|it| match it {
+        let once: Vec<Got> = self.sc.items.iter().map(|it| match it {
             Item::Meta(v) => Got::Meta(metadata_sample(*v).0),
             Item::Audio { ts, len } => Got::Audio { ts: *ts, data: media_payload(*ts ^ 8, *len) },
             Item::Video { ts, len } => Got::Video { ts: *ts, data: media_payload(*ts ^ 9, *len) },
         }).collect();
+        let mut want: Vec<Got> = Vec::new();
+        for _ in 0..self.sc.modes.len() {
+            want.extend(once.iter().cloned());
+        }
         if self.received != want {
             let describe = |g: &Got| match g {
                 Got::Meta(m) => format!("Meta({:?})", m),
@@ -343,8 +366,8 @@ impl Sys {
             let kind = if self.received.len() < want.len() { "item-lost" } else if self.received.len() > want.len() { "item-duplicated" } else { "item-differs" };
             return Err((format!("C02/{}", kind), format!("receiver raised {:?}, sender sent {:?}", self.received.iter().map(describe).collect::<Vec<_>>(), want.iter().map(describe).collect::<Vec<_>>())));
         }
-        if self.finished != 1 {
-            return Err(("C02/finished-event".into(), format!("{} finished events at the server after the client stopped (expected exactly one)", self.finished)));
+        if self.finished != self.sc.modes.len() {
+            return Err(("C02/finished-event".into(), format!("{} finished events at the server after the client stopped {} activities (expected exactly one each)", self.finished, self.sc.modes.len())));
         }
         Ok(())
     }
@@ -445,7 +468,7 @@ impl<'a> Explorer<'a> {
 
 pub fn default_scenario(publish: bool) -> Scenario {
     Scenario {
-        publish, items: vec![Item::Meta(7), Item::Audio { ts: 5, len: 3 }, Item::Video { ts: 0x100_0000, len: 0 }],
+        modes: vec![publish], items: vec![Item::Meta(7), Item::Audio { ts: 5, len: 3 }, Item::Video { ts: 0x100_0000, len: 0 }],
         app: "live".into(), key: "stream1".into(), client_chunk: 4096, server_chunk: 4096, client_window: 2_500_000, server_window: 1_073_741_824,
     }
 }
@@ -496,7 +519,7 @@ pub fn run(run: &Run) {
     // ---- job list: (scenario, deviations, mode) ----
     let mut jobs: Vec<(Scenario, u32, Mode)> = Vec::new();
     let mk = |publish: bool, items: &Vec<Item>, cp: (u32, u32), w: (u32, u32)| Scenario {
-        publish, items: items.clone(), app: "live".into(), key: "stream1".into(), client_chunk: cp.0, server_chunk: cp.1, client_window: w.0, server_window: w.1,
+        modes: vec![publish], items: items.clone(), app: "live".into(), key: "stream1".into(), client_chunk: cp.0, server_chunk: cp.1, client_window: w.0, server_window: w.1,
     };
     for publish in [true, false] {
         for (si, items) in scripts.iter().enumerate() {
@@ -515,6 +538,30 @@ pub fn run(run: &Run) {
                     let small = items.len() <= 2 && !heavy;
                     if small && (thorough || (si * 7 + ci * 3 + wi) % 11 == 0) {
                         jobs.push((mk(publish, items, cp, w), 1, Mode::Default));
+                    }
+                }
+            }
+        }
+    }
+    // several activities on one connection (publish/play, stop, publish/play again): the second
+    // activity runs on a new message stream over chunk streams that already carry history
+    let multi: Vec<Vec<bool>> = vec![vec![true, true], vec![false, false], vec![true, false], vec![false, true], vec![true, true, true]];
+    for modes in multi.iter() {
+        for (si, items) in scripts.iter().enumerate() {
+            if items.is_empty() || items.iter().any(|i| matches!(i, Item::Video { len, .. } | Item::Audio { len, .. } if *len > 5000)) {
+                continue;
+            }
+            for (ci, &cp) in chunk_pairs.iter().enumerate() {
+                if !thorough && (si + ci) % 4 != 0 {
+                    continue;
+                }
+                let mut sc = mk(true, items, cp, windows[(si + ci) % windows.len()]);
+                sc.modes = modes.clone();
+                jobs.push((sc.clone(), 0, Mode::Default));
+                if (si + ci) % 8 == 0 {
+                    jobs.push((sc.clone(), 0, Mode::Fixed(1)));
+                    if items.len() <= 1 && (thorough || ci == 0) {
+                        jobs.push((sc, 1, Mode::Default));
                     }
                 }
             }
